@@ -106,6 +106,17 @@ def run(R):
                 handlers.append(v)
                 continue
             ok = False
+        # the error belongs to THIS resumption: between two stepper calls (around the driver's loop) the variable is assigned
+        # again on every path - an exception the task has already handled must not be thrown at its next yield
+        dcfg_ = cfg_of(driver)
+        stores = [x for x in dcfg_.nodes if (x.kind == "stmt" and isinstance(x.ast, ast.Assign) and arg.id in q.names_stored(x.ast))
+                  or (x.kind == "except" and getattr(x.ast, "name", None) == arg.id)]
+        after = [e.dst for e in dcfg_.out_edges(n.id, N)]
+        stale = dcfg_.find_path(after, [n], N, cut_nodes=stores)
+        R.check(stale is None, "C02.FLOW-THROW", "%s:fresh" % driver.qualname, R.site(driver, c),
+                "the error variable is assigned anew between two steps of the generator",
+                "from one step of the generator the next one can be reached without `%s` being assigned again: an exception the task caught and handled is "
+                "thrown into it a second time at its next yield" % arg.id, dcfg_.fmt_path(stale) if stale else None)
         R.check(ok and handlers, "C02.FLOW-THROW", "%s:source" % driver.qualname, R.site(driver, c),
                 "the error handed to the stepper is None or the exception object bound by an except clause (identity preserved)",
                 "the error handed to the stepper can be something other than the caught exception object")
@@ -199,6 +210,8 @@ def run(R):
     # ---- ESCAPE
     common.escape_rule(R, ro, "C02.ESCAPE", ("step", "provider", "flush"), "delivered at the awaiting task's yield")
     inline_fail(R, ro, hier, "C02.ESCAPE")
+    n_slots = common.exception_slot_types(R, "C02.ERR-TYPE", ("futures.FutureBase", "async_task.AsyncTask", "batching.BatchBase", "batching.BatchItemBase"))
+    R.need(n_slots >= 6, "fewer exception-carrying slots in the .pxd files than confirmed by hand (%d < 6)" % n_slots)
     capture_guard(R, ro, "C02.CAPTURE-GUARD")
     R.require_min("C02.FLOW-THROW", 3)
     R.require_min("C02.ESCAPE", 3)
